@@ -96,6 +96,73 @@ def _read_size(tree: ast.Module) -> int:
     raise Unrecognised("tcp_io: reader.read(<int>) not found")
 
 
+
+def _is_noise(st: ast.AST) -> bool:
+    """docstrings and logging calls carry no behaviour the models depend on"""
+    if isinstance(st, ast.Expr) and isinstance(st.value, ast.Constant) and isinstance(st.value.value, str):
+        return True
+    if isinstance(st, ast.Expr) and isinstance(st.value, ast.Call):
+        f = st.value.func
+        while isinstance(f, ast.Attribute):
+            f = f.value
+        if isinstance(f, ast.Name) and f.id in ("LOGGER", "logging", "logger", "log"):
+            return True
+    return isinstance(st, ast.Pass)
+
+
+class _Canon(ast.NodeTransformer):
+    """renames the local variables of a function body in order of first binding, so that the comparison with
+    the modelled skeleton does not depend on how locals are called"""
+    def __init__(self):
+        self.names = {}
+
+    def bind(self, name):
+        if name not in self.names:
+            self.names[name] = f"v{len(self.names)}"
+
+    def visit_Name(self, node):
+        if isinstance(node.ctx, ast.Store):
+            self.bind(node.id)
+        if node.id in self.names:
+            return ast.copy_location(ast.Name(id=self.names[node.id], ctx=node.ctx), node)
+        return node
+
+
+class _Rename(ast.NodeTransformer):
+    def __init__(self, mapping):
+        self.mapping = mapping
+
+    def visit_Name(self, node):
+        if node.id in self.mapping:
+            return ast.copy_location(ast.Name(id=self.mapping[node.id], ctx=node.ctx), node)
+        return node
+
+
+class _CompCanon(ast.NodeTransformer):
+    """variables bound by a comprehension are local to it: rename them there, independently of the function's locals"""
+    def _comp(self, node):
+        self.generic_visit(node)
+        bound = []
+        for g in node.generators:
+            for n in ast.walk(g.target):
+                if isinstance(n, ast.Name) and n.id not in bound:
+                    bound.append(n.id)
+        return _Rename({b: f"_c{i}" for i, b in enumerate(bound)}).visit(node)
+
+    visit_ListComp = visit_SetComp = visit_GeneratorExp = visit_DictComp = _comp
+
+
+def _canon_body(stmts) -> list:
+    stmts = [_CompCanon().visit(st) for st in stmts]
+    c = _Canon()
+    # two passes: bind every stored local first (comprehension variables included), then rename all uses
+    for st in stmts:
+        for n in ast.walk(st):
+            if isinstance(n, ast.Name) and isinstance(n.ctx, ast.Store) and not n.id.startswith("_c"):
+                c.bind(n.id)
+    return [ast.unparse(c.visit(st)) for st in stmts]
+
+
 # ---- start-up sequences (C13): the order in which run_forever / setup create what the replayed
 # handlers use, and where they subscribe (subscribing replays the backlog through the handler)
 RES = {"state_producer": 1, "state_consumer": 2, "ticker": 3, "new_wakeup": 4, "time_marks": 5}
@@ -106,8 +173,8 @@ def _start_events(fn: ast.AST, inline_super=None) -> list:
     await super().<same name>(...) | self._mark_time(...) ; anything else fails"""
     out = []
     for st in fn.body:
-        if isinstance(st, ast.Expr) and isinstance(st.value, ast.Constant) and isinstance(st.value.value, str):
-            continue  # docstring
+        if _is_noise(st):
+            continue  # docstring / logging
         tgt = None
         if isinstance(st, ast.Assign) and len(st.targets) == 1:
             tgt = st.targets[0]
@@ -180,22 +247,28 @@ _DO_TICK = [
 def _master_loop(src: Path) -> bool:
     master = ast.parse((src / "core/management/schedulers/master.py").read_text())
     fn = _func(master, "_do_tick", "MasterScheduler")
-    stmts = [st for st in fn.body if not (isinstance(st, ast.Expr) and isinstance(st.value, ast.Constant))]
+    stmts = [st for st in fn.body if not _is_noise(st)]
     if not stmts or not isinstance(stmts[0], ast.If) or ast.unparse(stmts[0].test) != "not self.wakeups" or stmts[0].orelse:
         raise Unrecognised("_do_tick: does not start with `if not self.wakeups:`")
-    body = [ast.unparse(st) for st in stmts[0].body]
+    body = [ast.unparse(st) for st in stmts[0].body if not _is_noise(st)]
     if body == ["self.new_wakeup.clear()", "await self.new_wakeup.wait()"]:
         clears = True
     elif body == ["await self.new_wakeup.wait()"]:
         clears = False
     else:
         raise Unrecognised(f"_do_tick: unexpected idle branch {body}")
-    def norm(code):       # independent of how this Python version prints tuples etc.
-        return ast.unparse(ast.parse("async def f():\n" + "\n".join("    " + ln for ln in code.splitlines())).body[0].body[0])
 
-    rest = [ast.unparse(st) for st in stmts[1:]]
-    if rest != [norm(x) for x in _DO_TICK]:
-        diff = [(i, a, b) for i, (a, b) in enumerate(zip(rest + [None] * len(_DO_TICK), [norm(x) for x in _DO_TICK] + [None] * len(rest))) if a != b]
+    def strip(st):
+        for n in ast.walk(st):
+            for fld in ("body", "orelse"):
+                if isinstance(getattr(n, fld, None), list):
+                    setattr(n, fld, [x for x in getattr(n, fld) if not _is_noise(x)] or getattr(n, fld)[:0])
+        return st
+
+    rest = _canon_body([strip(st) for st in stmts[1:]])
+    want = _canon_body(ast.parse("async def f():\n" + "\n".join("    " + ln for x in _DO_TICK for ln in x.splitlines())).body[0].body)
+    if rest != want:
+        diff = [(i, a, b) for i, (a, b) in enumerate(zip(rest + [None] * len(want), want + [None] * len(rest))) if a != b]
         raise Unrecognised(f"_do_tick: statement skeleton differs from the modelled one at {diff[:1]}")
     return clears
 
